@@ -54,13 +54,27 @@ theorem rangeIncl_eq (off b e : Nat) (h : b ≤ e) :
   have h2 : off + e - (off + b) + 1 = e - b + 1 := by omega
   rw [h2]
 
+/-- within the indexable range the limit of repair C04-5 is the identity -/
+theorem overlappingBinsFor_eq_core (beg end_ : Int) (h : end_ ≤ 536870912) :
+    overlappingBinsFor beg end_ = overlappingBinsForCore beg end_ := by
+  unfold overlappingBinsFor
+  rw [if_neg (by omega)]
+
+/-- beyond it the query is cut at 2^29 -/
+theorem overlappingBinsFor_clamp (beg end_ : Int) (h : 536870912 < end_) :
+    overlappingBinsFor beg end_ = overlappingBinsFor beg 536870912 := by
+  unfold overlappingBinsFor
+  rw [if_pos (by omega), if_neg (by omega)]
+
 theorem overlappingBinsFor_spec (beg end_ : Nat) (h1 : beg < end_) (h2 : end_ ≤ 2 ^ 29) :
     overlappingBinsFor beg end_ = Hts.Spec.Coord.reg2bins beg end_ 14 5 := by
   have he : ((end_ : Int) - 1) = ((end_ - 1 : Nat) : Int) := by omega
   have hb : beg < 2 ^ 29 := by omega
   have hbe : beg ≤ end_ - 1 := by omega
   have hee : end_ - 1 < 2 ^ 29 := by omega
-  unfold overlappingBinsFor Hts.Spec.Coord.reg2bins
+  rw [overlappingBinsFor_eq_core _ _ (by have : (2:Nat)^29 = 536870912 := by decide
+                                         omega)]
+  unfold overlappingBinsForCore Hts.Spec.Coord.reg2bins
   simp only [he, int_shr_nat]
   have l5 : levelOffset 5 = 4681 := by decide
   have l4 : levelOffset 4 = 585 := by decide
@@ -213,10 +227,22 @@ theorem reg2binsLoop_spec (b e ms d : Nat) (hd : d ≤ 10) (hbe : b ≤ e) (he :
         rw [this]
         exact ih (level + 1) (by omega)
 
+/-- for a non-empty query inside the indexable range the limits of repair C04-6 are the identity -/
+theorem reg2bins_eq_core (beg end_ : Int) (ms d : Nat) (h0 : 0 ≤ beg) (h1 : beg < end_)
+    (h2 : end_ ≤ (2 : Int) ^ (ms + d * 3)) : reg2bins beg end_ ms d = reg2binsCore beg end_ ms d := by
+  unfold reg2bins csiClampBeg csiClampEnd
+  rw [if_neg (by omega), if_neg (by omega), if_neg (by omega)]
+
 theorem reg2bins_spec (beg end_ ms d : Nat) (hd : d ≤ 10) (h1 : beg < end_) (h2 : end_ ≤ 2 ^ (ms + 3 * d)) :
     reg2bins beg end_ ms d = Hts.Spec.Coord.reg2bins beg end_ ms d := by
   have he : ((end_ : Int) - 1) = ((end_ - 1 : Nat) : Int) := by omega
-  unfold reg2bins Hts.Spec.Coord.reg2bins
+  have hpow : ((end_ : Nat) : Int) ≤ (2 : Int) ^ (ms + d * 3) := by
+    have e : ms + d * 3 = ms + 3 * d := by omega
+    rw [e]
+    have : ((2 ^ (ms + 3 * d) : Nat) : Int) = (2 : Int) ^ (ms + 3 * d) := by rw [Int.natCast_pow]; rfl
+    omega
+  rw [reg2bins_eq_core _ _ _ _ (by omega) (by omega) hpow]
+  unfold reg2binsCore Hts.Spec.Coord.reg2bins
   rw [he]
   have := reg2binsLoop_spec beg (end_ - 1) ms d hd (by omega) (by omega) (d + 1) 0 (by omega)
   simp only [Nat.sub_zero] at this
